@@ -61,7 +61,7 @@ type CaseResult struct {
 func scaleDefs() {
 	// large enough that no probe record comes near the serializer's fixed buffer (2 x record size): what happens to
 	// oversized records is the subject of C07/C11, not of this property
-	defs.InputLogMaxMessageBytes = 256 * 1024
+	defs.InputLogMaxMessageBytes = 64 * 1024
 	defs.InputLogMaxRecordBytes = defs.InputLogMaxMessageBytes + 256
 	defs.ListenerLineBufferSize = defs.InputLogMaxRecordBytes * 4
 	defs.InputFlushInterval = 5 * time.Millisecond
